@@ -175,7 +175,7 @@ pub uninterp spec fn u32_of(s: Seq<char>) -> Option<u32>;
 pub fn parse_u32(s: &Str) -> (r: Result<u32, ()>) ensures r is Ok == u32_of(s@) is Some, r is Ok ==> r->Ok_0 == u32_of(s@)->Some_0 { unimplemented!() }
 //@ item getrids file=src/sys/user.rs fn=getrids props=C18,C12
 //@ rw R8 1 ⟦(env::var("SUDO_UID"), env::var("SUDO_GID"))⟧ => ⟦(env_var("SUDO_UID"), env_var("SUDO_GID"))⟧
-//@ rw R4 1 ⟦(u.parse::<u32>(), g.parse::<u32>())⟧ => ⟦(parse_u32(&u), parse_u32(&g))⟧
+//@ rw R4 + re⟦\b(\w+)\.parse::<u32>\(\)⟧ => ⟦parse_u32(&\1)⟧
 pub fn getrids(uid: u32, gid: u32) -> (r: (u32, u32))
     ensures ({
         let su = match env("SUDO_UID"@) { Some(v) => u32_of(v), None => None };
